@@ -1548,10 +1548,21 @@ def run_configs(ctx, cfgs):
         exprs = [FAMS[cfgs[i]['fam']][1](cfgs[i]) for i in qidx]
         model = {}
         t_q = time.time()
+        # shards of bounded COST (a table has 2^pool_bits rows): many cheap expressions per coqc, few big ones,
+        # so that no single coqc run comes near coqrun's per-file timeout on a loaded machine
+        order = sorted(range(len(qidx)), key=lambda k: (sum(cfgs[qidx[k]]['ws']), k))
+        classes = [(6, 200), (8, 60), (99, 15)]       # (max pool bits, expressions per coqc)
         try:
-            mres = ctx.coq_eval(exprs, IMPORTS, tag='c14', shard=120, jobs=14)
-            model = dict(zip(qidx, mres))
+            lo = 0
+            for ci, (maxbits, per) in enumerate(classes):
+                part = [k for k in order if lo <= sum(cfgs[qidx[k]]['ws']) <= maxbits]
+                lo = maxbits + 1
+                if part:
+                    mres = ctx.coq_eval([exprs[k] for k in part], IMPORTS, tag='c14_%d' % ci, shard=per, jobs=14)
+                    for k, m in zip(part, mres):
+                        model[qidx[k]] = m
         except Exception as e:
+            model = {}
             ctx.model_mismatch('Front/C14Harness.v could not be evaluated: %s' % str(e)[-800:], {})
         ctx.notes.append('coq model evaluation %.1fs for %d expressions' % (time.time() - t_q, len(exprs)))
         for idxs, f in futs:
